@@ -229,6 +229,10 @@ def apply(src_text, overlay, notes=None, trace=None, skip_ops=()):
                     # the anchored line was edited in place (its neighbours are where they were): keep the hint at that position
                     idx = amap[L - 1] + 1
                     notes.append('soft anchor: line /%s/ was edited in place' % op['after'][:40])
+                elif op['after'].strip() not in ('', '}', '{', '});', '})', '};') and overlay['src_norm'].count(op['after']) == 1 and an.count(op['after']) == 1:
+                    # the anchored line was moved (its text is unique before and after the edit): the hint moves with it
+                    idx = an.index(op['after'])
+                    notes.append('anchor line /%s/ was moved: hint follows it' % op['after'][:40])
                 else:
                     # the alignment shows that the anchored line is gone: the hint has lost its place (hints never add assumptions:
                     # dropping one can only make the proof fail, never pass)
